@@ -5,6 +5,7 @@ import (
 	"errors"
 	"flag"
 	"fmt"
+	"math"
 	"math/rand"
 	"os"
 	"runtime"
@@ -205,6 +206,10 @@ func (h *hookRun) param(forAdd bool) def.TaskUpdateParam {
 	}
 	if h.r.Intn(2) == 0 {
 		p.Priority = option.Some(h.r.Intn(3) - 1)
+		if h.r.Intn(8) == 0 {
+			// the ends of the range (a comparison by subtraction would wrap around)
+			p.Priority = option.Some([]int{math.MaxInt, math.MinInt, math.MaxInt - 1, math.MinInt + 1}[h.r.Intn(4)])
+		}
 	}
 	if !forAdd && h.r.Intn(6) == 0 {
 		p.Param = option.Some(map[string]string{"k": "v"})
